@@ -4,7 +4,7 @@ import json, os
 V = os.path.dirname(os.path.abspath(__file__))
 TRUST = ("Trusted base: the system-call contracts of /verif/prelude (external_body stand-ins for std/rustix/libc/xattr, listed mechanically in "
          "evidence.coverage.trusted_base), the prelude type mirrors, the extractor/generator, Verus and Z3. Assumptions A-kernel, A-stable, A-pool, "
-         "A-walk, A-drop, A-eintr, A-off_t, A-panic (DESIGN.md §6). unsafe fiemap and the FICLONE ioctl are trusted.")
+         "A-walk, A-ignore, A-drop, A-eintr, A-off_t, A-panic (DESIGN.md §6). unsafe fiemap and the FICLONE ioctl are trusted.")
 CHECKS = {
  'C01': ('proof', "Verus discharges, for all file contents, sizes, block sizes, short-count patterns and errnos allowed by the assumed kernel contracts, that each data-path function under contract (libfs copy loops and wrappers, CopyHandle copy paths, parblock partitioning and block job) returns Ok only after exactly the source bytes are at exactly the right offsets of the destination, with everything else of the destination untouched. Conditional on the kernel contracts and on the thread pool running every job (assumed).", '§5 C01'),
  'C02': ('proof', "Verus proves, on the whole tree_walker (no walk error swallowed), on its slices (per source: the target base; per walked entry: the body of the walk loop), on the per-operation slices of both workers and on the option-to-config mapping: cp's path-mapping rule, the dispatch by kind (file -> Size then Copy, symlink -> Link with the read_link text, dir -> create_dir_all in the walker, with --dereference no Link is queued), and that a Link operation creates a symlink with exactly that text. Partial: that WalkDir delivers every entry once is assumed (walk_seq); slices are hand-declared wrappers around verbatim statement ranges.", '§5 C02'),
